@@ -45,9 +45,15 @@ InitFile ==
 
 InitFolder ==
     /\ kind = "folder"
-    /\ \E s \in BOOLEAN, ex \in BOOLEAN, on \in BOOLEAN, a \in 0..5, v \in 0..5, nf \in 0..2 :
-        /\ cfg = [Cfg0 EXCEPT !.scan = s, !.nFiles = nf]
-        /\ truth = [Truth0 EXCEPT !.exists = ex, !.nodeOn = on, !.actual = a, !.visible = v]
+    /\ \/ \E ex \in BOOLEAN, on \in BOOLEAN, a \in 0..5, v \in 0..5, nf \in 0..2, sc \in BOOLEAN :
+            \* true state always shown: no memory
+            /\ cfg = [Cfg0 EXCEPT !.nFiles = nf]
+            /\ truth = [Truth0 EXCEPT !.exists = ex, !.nodeOn = on, !.actual = a, !.visible = v, !.scanned = sc]
+       \/ \E ex \in BOOLEAN, on \in BOOLEAN, a \in {1, 3}, v \in 0..5, nf \in {0, 2}, sc \in BOOLEAN, la \in 0..5 :
+            \* scanning required: every (memory, scan completes this step?, visible status now)
+            /\ cfg = [Cfg0 EXCEPT !.scan = TRUE, !.nFiles = nf]
+            /\ truth = [Truth0 EXCEPT !.exists = ex, !.nodeOn = on, !.actual = a, !.visible = v, !.scanned = sc,
+                                      !.last = la]
 
 InitNic ==
     /\ kind = "nic"
